@@ -16,9 +16,10 @@ _WORKER_RUN = None
 
 
 def _worker_path(prefix):
-    pack, contract, rlimit, xc = _WORKER_RUN
+    pack, contract, rlimit, xc, bu = _WORKER_RUN
     run = FunctionRun(pack, contract, rlimit)
     run.cross_check = xc
+    run.bounded_unroll = bu
     run.worklist = []
     out = {"status": "ok", "message": "", "results": [], "covered": set(), "completed": 0, "outcomes": {},
            "canary": None, "samples": [], "new": []}
@@ -59,6 +60,7 @@ class FunctionRun:
         self.sample_paths = []
         self.jobs = jobs
         self.called = set()
+        self.bounded_unroll = 0  # > 0: bounded stand-in (loop contracts ignored, loops unrolled this many times)
         self.cross_check = 0   # per path: how many discharged obligations get a cvc5 second opinion (thorough tier)
         self.xcount = 0
 
@@ -67,7 +69,7 @@ class FunctionRun:
         import concurrent.futures as cf
         import multiprocessing as mp
         global _WORKER_RUN
-        _WORKER_RUN = (self.pack, self.contract, self.rlimit, self.cross_check)
+        _WORKER_RUN = (self.pack, self.contract, self.rlimit, self.cross_check, self.bounded_unroll)
         ctxm = mp.get_context("fork")
         with cf.ProcessPoolExecutor(max_workers=self.jobs, mp_context=ctxm) as ex:
             pending = set()
@@ -114,7 +116,8 @@ class FunctionRun:
             mod = SourceModule.get(c.file)
             fnode = mod.func(c.qualname)
             self.sha = mod.segment_sha(fnode)
-            self._check_loop_anchors(fnode)
+            if not self.bounded_unroll:
+                self._check_loop_anchors(fnode)
             if self.jobs > 1:
                 self._run_parallel(mod, fnode)
             else:
